@@ -354,3 +354,50 @@ Theorem C02_shipped_points_for_x : forall t, In t shipped_curves ->
   end.
 Proof. exact shipped_points_for_x. Qed.
 Print Assumptions C02_shipped_points_for_x.
+
+(* ==== presentation independence (object level, Model/CurveObj.v) ====
+   A Python Point object = coordinates + the Curve object it references + its identity; every Curve object owns one
+   singleton infinity.  The results never depend on WHICH object presents a value: an infinity built with
+   Point(None, None, curve), rebuilt from coordinates, or owned by a twin Curve/Generator object with the same
+   parameters is the identity; operands built through any constructor, on any twin object, give the same coordinates.
+   No premise: these are statements about control flow (Curve.add compares tuples, not identities). *)
+From PV Require Import Model.CurveObj Proofs.CurveObjP.
+
+Theorem C02_object_add_is_value_add : forall (c : cobj) (p0 p1 : pobj) (fresh : nat),
+  omap po_xy (obj_curve_add c p0 p1 fresh) = add (co_curve c) (po_xy p0) (po_xy p1).
+Proof. exact obj_curve_add_coords. Qed.
+Print Assumptions C02_object_add_is_value_add.
+
+Theorem C02_presentation_independent_add : forall (c c' : cobj) (p0 p1 q0 q1 : pobj) (f f' : nat),
+  co_curve c = co_curve c' -> po_xy p0 = po_xy q0 -> po_xy p1 = po_xy q1 ->
+  omap po_xy (obj_curve_add c p0 p1 f) = omap po_xy (obj_curve_add c' q0 q1 f').
+Proof. exact presentation_independent_add. Qed.
+Print Assumptions C02_presentation_independent_add.
+
+Theorem C02_presentation_independent_sub : forall (P Q P' Q' : pobj) (f f' : nat),
+  co_curve (po_owner Q) = co_curve (po_owner P) -> co_curve (po_owner Q') = co_curve (po_owner P') ->
+  co_curve (po_owner P) = co_curve (po_owner P') -> po_xy P = po_xy P' -> po_xy Q = po_xy Q' ->
+  omap po_xy (obj_sub P Q f) = omap po_xy (obj_sub P' Q' f').
+Proof. exact presentation_independent_sub. Qed.
+Print Assumptions C02_presentation_independent_sub.
+
+Theorem C02_presentation_independent_neg : forall (P P' : pobj) (f f' : nat),
+  co_curve (po_owner P) = co_curve (po_owner P') -> po_xy P = po_xy P' ->
+  omap po_xy (obj_neg P f) = omap po_xy (obj_neg P' f').
+Proof. exact presentation_independent_neg. Qed.
+Print Assumptions C02_presentation_independent_neg.
+
+Theorem C02_presentation_independent_multiply : forall (c c' : cobj) (P P' : pobj) (e : Z) (f f' : nat),
+  co_curve c = co_curve c' -> po_xy P = po_xy P' ->
+  omap po_xy (obj_curve_multiply c P e f) = omap po_xy (obj_curve_multiply c' P' e f').
+Proof. exact presentation_independent_multiply. Qed.
+Print Assumptions C02_presentation_independent_multiply.
+
+(* ANY object with coordinates (None, None) is the identity: P + O and O + P return the object P itself, -O is O,
+   P - O has P's coordinates, k * O is infinity *)
+Theorem C02_any_infinity_object_is_identity : forall (c : cobj) (O P : pobj) (f : nat), po_xy O = None ->
+  obj_curve_add c P O f = Ret (if is_inf_value P then O else P) /\ obj_curve_add c O P f = Ret P /\
+  obj_neg O f = Ret O /\
+  omap po_xy (obj_sub P O f) = Ret (po_xy P) /\ omap po_xy (obj_curve_multiply c O 5 f) = Ret None.
+Proof. exact any_infinity_is_identity. Qed.
+Print Assumptions C02_any_infinity_object_is_identity.
